@@ -236,7 +236,7 @@ def _build():
         ),
         lambda: [c09.C09(), c09.Twin(), c09.Relabel(c03.C03(), "C09/live-", only=("C03/not-minimal", "C03/conflict", "C03/barrier"))],
         nontrivial_fn=c09.nontrivial,
-        world_kw={"bw_bias": 0.75},
+        world_kw={"bw_bias": 0.75, "int_ids_p": 0.1},
         enumerated=True,
         runs={"quick": 500, "thorough": 12000},
         assumptions=["fault positions and the catalogue are enumerated completely per base history; base histories are sampled", "state comparison covers timeline, phase references and shift times, EOM blocks, mode flags (incl. parametrized), declared/available channels and the canonical call log"],
@@ -302,7 +302,7 @@ def _build():
         ),
         lambda: [c06.C06()],
         nontrivial_fn=c06.nontrivial,
-        world_kw={"xy_p": 0.3},
+        world_kw={"xy_p": 0.3, "int_ids_p": 0.1},
         runs={"quick": 4000, "thorough": 120000},
         assumptions=["waveform sample values come from the real code (C16's business)", "per-atom phase is only asserted at instants where exactly one pulse acts on the atom in that basis"],
         expected_probes=["eom_idle_instants", "extended_observation", "extended_in_eom", "atom_view_checked", "xy_slm_mask_rendered", "xy_pulse_straddles_mask_end", "dmm_weighted"],
